@@ -151,11 +151,18 @@ impl<CS: CLCiphersuite> PoKSignature<CL03<CS>> {
         let min_e = Integer::from(2).pow(CS::le - 1) + 1;
         let max_e = Integer::from(2).pow(CS::le) - 1;
         let min_x = Integer::from(0);
-        let max_x = Integer::from(2).pow(CS::lm) - 1;
+        let max_x: Integer = Integer::from(2).pow(CS::lm) - 1;
         let CLSPoK = self.to_cl03_proof();
         // one sub-proof and one range proof per hidden attribute, no more and no fewer
         if CLSPoK.proofs_commited_mi.len() != unrevealed_message_indexes.len()
             || CLSPoK.range_proofs_commited_mi.len() != unrevealed_message_indexes.len()
+        {
+            return false;
+        }
+        // exactly the revealed attributes, each a valid attribute value: the verification equation alone also holds for
+        // m + k*e with a shifted signature, which no signer ever issued
+        if messages.len() + unrevealed_message_indexes.len() != n_signed_messages
+            || messages.iter().any(|m| m.value < min_x || m.value > max_x)
         {
             return false;
         }
